@@ -204,10 +204,31 @@ let () =
                  other configuration's prefix and ours are prefixes of one another (Coq: prefix_related) *)
               let others = unlist (List.nth args 5) in
               let own = unlist (List.nth args 4) in
+              let join l = match List.sort compare (List.map hex l) with [] -> "[]" | l -> String.concat "," l in
+              let model_s = collect nc_extract_name_from_file in
+              (* A known-finding tag is given ONLY when the exact preconditions of that finding hold and
+                 the whole listing is what the finding's mechanism predicts (and the model explains it):
+                 - unchecked-name: some own name is rejected by FileName::new (rules_of TFileName) and the
+                   listing is exactly the own names that FileName::new accepts (nothing else missing, no surplus);
+                 - isolation-prefix-of-prefix: every own name is valid and listed, the listing is exactly the
+                   spec extraction over the directory, and every surplus name comes from a file that starts with
+                   the prefix q of another configuration with q <> ours and prefix_related ours q (Coq).
+                 Everything else is unclassified, i.e. a fresh violation. *)
               let tag () =
-                if impl <> "P" && List.exists (fun n -> not (rules_of TFileName n)) own then "unchecked-name"
-                else if impl <> "P" && List.exists (fun q -> q <> c.prefix && prefix_related c.prefix q) others
-                then "isolation-prefix-of-prefix" else "unclassified" in
+                if impl = "P" || impl <> model_s then "unclassified" else begin
+                  let valid_own = List.filter (fun n -> rules_of TFileName n) own in
+                  let has_invalid = List.length valid_own <> List.length own in
+                  if has_invalid then (if impl = join valid_own then "unchecked-name" else "unclassified")
+                  else begin
+                    let spec_s = collect spec_extract_name_from_file in
+                    let surplus_files = List.filter (fun f -> match spec_extract_name_from_file c f with
+                        | Val (Some n) -> not (List.mem n own) | _ -> false) files in
+                    let explained f = List.exists (fun q -> q <> c.prefix && prefix_related c.prefix q && starts_with q f) others in
+                    let own_listed = List.for_all (fun n -> List.exists (fun f -> spec_extract_name_from_file c f = Val (Some n)) files) own in
+                    if impl = spec_s && own_listed && surplus_files <> [] && List.for_all explained surplus_files
+                    then "isolation-prefix-of-prefix" else "unclassified"
+                  end
+                end in
               check ~tag "cfg" (Some (collect nc_extract_name_from_file)) (Some (List.nth args 4))
             | "note" -> ()
             | _ -> failwith ("unknown fun op " ^ name));
